@@ -2068,6 +2068,8 @@ def jax_jvp(f, primals, tangents, **kw):
     tag = _new_ad_tag()
     y = f(ad_tag_primal(x, tag))
     if v.axes != x.axes:
+        if v.axes == () and any(a_[0] == 'S' for a_ in v.data[()].atoms()):
+            raise Top(f"jvp with an opaque tangent {v.data[()]}")          # shape unknown: not a contradiction
         raise Finding(f"jvp tangent axes {v.axes} differ from primal axes {x.axes}")
 
     def d(p):
